@@ -671,6 +671,18 @@ class Oracles:
                               f'committed job {(b, j)} is Pending with n_pending_parents '
                               f'{jr[J.col("n_pending_parents")]} although its parents {ps} are all terminal '
                               f'(always_run={jr[J.col("always_run")]}): it can never run')
+        # ---- C41 a committed job never depends on a job of an uncommitted update ---------------------------------
+        if 'job_parents' in touched or 'batch_updates' in touched:
+            for r in P.rows():
+                b, j, p = r[P.col('batch_id')], r[P.col('job_id')], r[P.col('parent_id')]
+                child = jobs_by_key.get((b, j))
+                par = jobs_by_key.get((b, p))
+                if child is None or par is None or (b, child[ju]) not in committed:
+                    continue
+                if (b, par[ju]) not in committed:
+                    self.fail('C41', 'uncommitted', 'C41/committed_job_depends_on_uncommitted_job',
+                              f'committed job {(b, j)} (update {child[ju]}) depends on job {p} of update {par[ju]}, '
+                              f'which is not committed: a never-committed update decides whether it can run')
         # ---- C05 failed parents cancel children -------------------------------------------------------------
         for r in P.rows():
             b, j, p = r[P.col('batch_id')], r[P.col('job_id')], r[P.col('parent_id')]
